@@ -152,6 +152,12 @@ def plan(ctx, cat):
             nv.append(len(vs))
         # stretches without any traded volume (15-60 candles, also at the very start) while the price keeps moving,
         # cut inside, at the end of and shortly after every stretch
+        # regime change: a very quiet (not constant) stretch followed by a volatile one, and the reverse - for both candle
+        # arrays of the two-array indicators - cut around the boundary (normalisers taken over the whole input)
+        for kd, ps in ctx.pick([("regime", 1), ("regime_r", 2)], [("regime", 1), ("regime", 3), ("regime_r", 2), ("regime_r", 4)]):
+            sp.append((kd, 300, ps))
+            pre.append(D.regime_cuts(300, ps, full=not ctx.quick))
+            nv.append(len(vs) if not ctx.quick else min(len(vs), nrand))
         for ps in ctx.pick([1], [1, 2, 3, 4]):
             sp.append(("zerovol", 300, ps))
             pre.append(D.zerovol_cuts(300, ps, full=not ctx.quick))
@@ -196,6 +202,19 @@ def alt_future(sp, short, long_):
     return c
 
 
+def mirrored_future(sp, short, long_):
+    """candles that share the first `short` rows with the series and continue with the SAME kind of market: the shared part
+    replayed backwards (levels continued from the last shared close)"""
+    c = D.build_series(sp)[:long_].copy()
+    k = long_ - short
+    idx = [short - 1 - (j % short) for j in range(k)]
+    seg = c[idx, :].copy()
+    shift = c[short - 1, 2] - seg[0, 1]
+    c[short:, 1:5] = np.maximum(seg[:, 1:5] + shift, 1e-9)
+    c[short:, 5] = seg[:, 5]
+    return c
+
+
 def twin_job(item):
     """two confirmations for every rejected case of one indicator:
     (a) the same case on the jittered twin of the series (same shape, no exact ties between candles);
@@ -217,18 +236,24 @@ def twin_job(item):
             b = None
             try:
                 co = D.build_series(sp)[:long_]
-                ca = alt_future(sp, short, long_)
-                c2o = D.build_series((sp[0], sp[1], sp[2] + 1000) + tuple(sp[3:]))[:long_]
+                sp2 = (sp[0], sp[1], sp[2] + 1000) + tuple(sp[3:])
+                c2o = D.build_series(sp2)[:long_]
                 ro = dict(D.fields_of(D.call(entry, co, c2o, kw, True)))[field]
-                ra = dict(D.fields_of(D.call(entry, ca, c2o, kw, True)))[field]
-                so, sa = D.as_list(ro), D.as_list(ra)
-                kind = "str" if D.kind_of(so) == "str" or D.kind_of(sa) == "str" else "num"
+                so = D.as_list(ro)
                 unit = D.scale_of(so, D.pscale_of(co)) * 1e-6
                 exempt = int(kw.get("order", entry["params"].get("order", 0))) if entry["name"] == "minmax" else 0
-                b = [{"hdr": {"ind": entry["name"], "field": field, "kind": kind, "exempt": exempt, "params": params_key(kw),
-                              "series": list(sp), "finite": 0},
-                      "ev": [{"len": short, "out": D.enc_series(sa, kind, unit)}, {"len": long_, "out": D.enc_series(so, kind, unit)}],
-                      "kw": kw}]
+                b = []
+                # a different future (another kind of market) and a mirrored one (the same kind of market), for both arrays
+                for ca, c2a in ((alt_future(sp, short, long_), alt_future(sp2, short, long_)),
+                                (mirrored_future(sp, short, long_), mirrored_future(sp2, short, long_))):
+                    ra = dict(D.fields_of(D.call(entry, ca, c2a, kw, True)))[field]
+                    sa = D.as_list(ra)
+                    kind = "str" if D.kind_of(so) == "str" or D.kind_of(sa) == "str" else "num"
+                    b.append({"hdr": {"ind": entry["name"], "field": field, "kind": kind, "exempt": exempt,
+                                      "params": params_key(kw), "series": list(sp), "finite": 0},
+                              "ev": [{"len": short, "out": D.enc_series(sa, kind, unit)},
+                                     {"len": long_, "out": D.enc_series(so, kind, unit)}],
+                              "kw": kw})
             except Exception:
                 b = None
             out.append((a, b))
@@ -351,8 +376,9 @@ def run(ctx):
         "an indicator that raises on a (short) input is skipped for that length",
         "the second candle array of beta/rsmk is an independent series cut to the same prefix",
         "a rejected trace is reported only when TLC also rejects a confirmation trace of the same case: on the jittered twin of "
-        "the series (every price and volume multiplied by 1 + 1e-6 u), or at the failing input length against candles that "
-        "share the shorter prefix and continue differently (equal array shapes): exact ties on lattice / periodic inputs are decided by the last bit of a "
+        "the series (every price and volume multiplied by 1 + 1e-9 u), or at the failing input length against candles that "
+        "share the shorter prefix and continue differently - with another kind of market and with the shared part mirrored - "
+        "(equal array shapes): exact ties on lattice / periodic inputs are decided by the last bit of a "
         "float, which differs between vectorised runs of different length (seen: hull_suit.signal on an alternating series, "
         "vlma with the smma selector on a lattice trend); structural look-ahead survives the jitter"]
 
